@@ -17,7 +17,8 @@ type histIn struct {
 }
 
 func genBounds(r *Rand) []int64 {
-	base := []int64{-3, 0, 1, 5, 9, 10, 100, 255, 256, 300, 1000, 5000, 1 << 40, -(1 << 40)}
+	// 2^53+1 and 2^53+3: integers a float64 cannot hold (number texts must be read as integers, not through floats)
+	base := []int64{-3, 0, 1, 5, 9, 10, 100, 255, 256, 300, 1000, 5000, 1 << 40, -(1 << 40), 1<<53 + 1, -(1<<53 + 1), 1<<53 + 3}
 	if r.Chance(25) {
 		base = append(base, 1<<62, 1<<62-1, -(1 << 62), -(1<<62 - 1), 1<<62-300, -(1<<62 - 300))
 	}
@@ -105,7 +106,8 @@ func rangeDocset(r *Rand, kind string, two bool) eCase {
 			}
 			switch {
 			case m == 1 && r.Chance(40):
-				a = append(a, eAssign{F: 2, V: pick(r, []TV{l[0], tvStr(fmt.Sprint(*l[0].I)), tvInt("int", *l[0].I)})})
+				a = append(a, eAssign{F: 2, V: pick(r, []TV{l[0], tvStr(fmt.Sprint(*l[0].I)), tvInt("int", *l[0].I), tvJSON(fmt.Sprint(*l[0].I)),
+					tvSlice("[]string", tvStr(fmt.Sprint(*l[0].I))), tvList(tvJSON(fmt.Sprint(*l[0].I)))})})
 			case r.Chance(30):
 				a = append(a, eAssign{F: 2, V: tvList(l...)})
 			default:
